@@ -230,6 +230,7 @@ type Proxy struct {
 	Log       []Msg
 	Forwarded []Msg // messages actually written to the other side
 	Decide    func(m Msg) Decision
+	Rewrite   func(m Msg) json.RawMessage // non-nil result replaces the forwarded bytes
 	accept    bool
 	closed    bool
 	live      []net.Conn
@@ -306,6 +307,14 @@ func (p *Proxy) serve() {
 					return
 				case Swallow:
 					continue
+				}
+				p.mu.Lock()
+				rw := p.Rewrite
+				p.mu.Unlock()
+				if rw != nil {
+					if nr := rw(m); nr != nil {
+						raw = nr
+					}
 				}
 				if _, err := to.Write(append(raw, '\n')); err != nil {
 					return
